@@ -753,4 +753,170 @@ theorem stimson_sum_is_truncated_series (a m p tol1 tol2 : ℝ) (maxN n : ℕ) (
         |(stimsonTerm a m p (n + (k - 1))).2| < tol2) :=
   stimsonLoop_spec a m p tol1 tol2 maxN n c1 c2
 
+/-! ### The hydrodynamic model near a surface at low frequency -/
+
+/-- Near a surface the complex drag `γ(f)/γ₀` tends, as `f → 0⁺`, to the real number `1 / (1 − 9R/(16 l))`: the
+    zero-frequency wall correction the model converts bulk drag to local drag with. -/
+theorem hydro_surface_low_frequency_limit (g rho R l : ℝ) (hg : 0 < g) (hrho : 0 < rho) (hR : 0 < R) (hl : R ≤ l) :
+    Tendsto (fun f => complexDrag f g rho R (some l)) (𝓝[≥] 0) (𝓝 (1 / (1 - 9 / 16 * (R / l)), 0)) := by
+  have hnu := frequencyNu_pos g rho R hg hrho hR
+  have h0 : Tendsto (surfaceDragNN (frequencyNu g rho R) R l) (𝓝[≥] 0) (𝓝 (1 / (1 - 9 / 16 * (R / l)), 0)) := by
+    have := (surfaceDragNN_continuousAt (frequencyNu g rho R) R l hR hl).tendsto.mono_left
+      (nhdsWithin_le_nhds (s := Set.Ici 0))
+    rwa [surfaceDragNN_zero _ R l hR hl] at this
+  apply h0.congr'
+  filter_upwards [self_mem_nhdsWithin] with f hf
+  exact (complexDrag_surface f g rho R l hf hnu).symm
+
+
+example : Tendsto (fun f => complexDrag f (1e-8:ℝ) 997 5e-7 (some 1e-6)) (𝓝[≥] 0) (𝓝 (1 / (1 - 9 / 16 * (5e-7 / 1e-6)), 0)) :=
+  hydro_surface_low_frequency_limit _ _ _ _ (by norm_num) (by norm_num) (by norm_num) (by norm_num)
+
+/-- Hence, near a surface too, the hydrodynamically correct spectrum tends at low frequency to a Lorentzian — the one
+    with the LOCAL drag `γ = γ₀ / (1 − 9R/(16 l))`, i.e. corner frequency `f_c/c` and diffusion constant `D/c`,
+    `c = 1 / (1 − 9R/(16 l))`: their ratio → 1 as `f → 0⁺`. -/
+theorem hydro_surface_tends_to_lorentzian (fc D g R rhoS rhoB l : ℝ) (hfc : 0 < fc) (hD : D ≠ 0) (hg : 0 < g)
+    (hR : 0 < R) (hrho : 0 < rhoS) (hl : R ≤ l) :
+    Tendsto (fun f => hydroPsd f fc D g R rhoS rhoB (some l) /
+        lorentzian f (fc / (1 / (1 - 9 / 16 * (R / l)))) (D / (1 / (1 - 9 / 16 * (R / l))))) (𝓝[≥] 0) (𝓝 1) := by
+  have hnu := frequencyNu_pos g rhoS R hg hrho hR
+  have hl0 : 0 < l := by linarith
+  have hq : 9 / 16 * (R / l) < 1 := by
+    have : R / l ≤ 1 := (div_le_one hl0).mpr hl
+    linarith
+  have hne : 1 - 9 / 16 * (R / l) ≠ 0 := by linarith
+  obtain ⟨c, hc⟩ : ∃ c : ℝ, c = 1 / (1 - 9 / 16 * (R / l)) := ⟨_, rfl⟩
+  have hc0 : 0 < c := by rw [hc]; apply one_div_pos.mpr; linarith
+  rw [← hc]
+  have hpi := Real.pi_pos
+  let G := surfaceDragNN (frequencyNu g rhoS R) R l
+  have hG : ContinuousAt G 0 := surfaceDragNN_continuousAt _ R l hR hl
+  have hG0 : G 0 = (c, 0) := by rw [hc]; exact surfaceDragNN_zero _ R l hR hl
+  have hG1 : ContinuousAt (fun f => (G f).1) 0 := continuousAt_fst.comp hG
+  have hG2 : ContinuousAt (fun f => (G f).2) 0 := continuousAt_snd.comp hG
+  let fm := frequencyM g R rhoB
+  let H : ℝ → ℝ := fun f => D / Real.pi ^ 2 * (G f).1 / ((fc + f * ((G f).2 - f / fm)) ^ 2 + (f * (G f).1) ^ 2)
+  let L : ℝ → ℝ := fun f => (D / c / Real.pi ^ 2) / (f ^ 2 + (fc / c) ^ 2)
+  have hH : ContinuousAt H 0 := by
+    apply ContinuousAt.div
+    · fun_prop
+    · fun_prop
+    · simp only [hG0]; norm_num; positivity
+  have hL : ContinuousAt L 0 := by
+    apply ContinuousAt.div
+    · fun_prop
+    · fun_prop
+    · norm_num; exact ⟨hfc.ne', hc0.ne'⟩
+  have hL0 : L 0 ≠ 0 := by
+    simp only [L]; norm_num; exact ⟨⟨hD, hc0.ne'⟩, hfc.ne', hc0.ne'⟩
+  have hHL : ContinuousAt (fun f => H f / L f) 0 := hH.div hL hL0
+  have e : H 0 / L 0 = 1 := by
+    simp only [H, L, hG0]; norm_num
+    field_simp
+  have h0 : Tendsto (fun f => H f / L f) (𝓝[≥] 0) (𝓝 1) := by
+    have := hHL.tendsto.mono_left (nhdsWithin_le_nhds (s := Set.Ici 0))
+    rwa [e] at this
+  apply h0.congr'
+  filter_upwards [self_mem_nhdsWithin] with f hf
+  simp only [H, L, G, fm]
+  rw [lorentzian_real]
+  simp only [hydroPsd, complexDrag_surface f g rhoS R l hf hnu, RealLike.pi]
+  ring
+
+
+example : Tendsto (fun f => hydroPsd f 500 2 (1e-8:ℝ) 5e-7 997 1060 (some 1e-6) /
+    lorentzian f (500 / (1 / (1 - 9 / 16 * (5e-7 / 1e-6)))) (2 / (1 / (1 - 9 / 16 * (5e-7 / 1e-6))))) (𝓝[≥] 0) (𝓝 1) :=
+  hydro_surface_tends_to_lorentzian _ _ _ _ _ _ _ (by norm_num) (by norm_num) (by norm_num) (by norm_num) (by norm_num)
+    (by norm_num)
+
+/-- The hydrodynamically correct spectrum near a surface is positive at every positive frequency, from contact
+    outwards (`l ≥ R`; the model is used for `l ≥ 1.5 R`). -/
+theorem hydro_surface_pos (f fc D g R rhoS rhoB l : ℝ) (hf : 0 < f) (hD : 0 < D) (hg : 0 < g) (hR : 0 < R)
+    (hrho : 0 < rhoS) (hl : R ≤ l) : 0 < hydroPsd f fc D g R rhoS rhoB (some l) := by
+  have hnu := frequencyNu_pos g rhoS R hg hrho hR
+  have hre := surfaceDragNN_re_pos (frequencyNu g rhoS R) R l f hnu hf.le hR hl
+  simp only [hydroPsd, complexDrag_surface f g rhoS R l hf.le hnu, RealLike.pi]
+  generalize surfaceDragNN (frequencyNu g rhoS R) R l f = G at *
+  have hpi := Real.pi_pos
+  have hb : 0 < (f * G.1) * (f * G.1) := by positivity
+  apply div_pos
+  · positivity
+  · have := mul_self_nonneg (fc + f * (G.2 - f / frequencyM g R rhoB))
+    linarith
+
+
+example : 0 < hydroPsd (1000:ℝ) 500 2 1e-8 5e-7 997 1060 (some 1e-6) :=
+  hydro_surface_pos _ _ _ _ _ _ _ _ (by norm_num) (by norm_num) (by norm_num) (by norm_num) (by norm_num) (by norm_num)
+
+/-! ### NaCl solutions: temperature, and the molarity ↔ molality conversion -/
+
+/-- Kestin Eq. 2–5: at a fixed molality the zero-pressure viscosity of the solution decreases strictly with temperature -/
+theorem salt_zero_pressure_viscosity_decreases_with_temperature (t₁ t₂ m : ℝ) (h0 : 20 ≤ t₁) (h12 : t₁ < t₂)
+    (h1 : t₂ ≤ 150) (hm0 : 0 ≤ m) (hm6 : m ≤ 6) : zeroPressureViscosity t₂ m < zeroPressureViscosity t₁ m := by
+  have hq := waterExp_strictAnti t₁ t₂ h0 h12 h1
+  have hB := one_add_B_pos m hm0 hm6
+  have hform : ∀ t : ℝ, zeroPressureViscosity t m = 1002 * (10:ℝ) ^ (waterExp t + saltExp (waterExp t) m) := by
+    intro t
+    rw [zpv_real, muW_real, mul_assoc, ← Real.rpow_add (by norm_num)]
+  rw [hform, hform]
+  apply mul_lt_mul_of_pos_left _ (by norm_num : (0:ℝ) < 1002)
+  apply (Real.rpow_lt_rpow_left_iff (by norm_num : (1:ℝ) < 10)).mpr
+  unfold saltExp
+  nlinarith
+
+
+example : zeroPressureViscosity (30:ℝ) 1 < zeroPressureViscosity (25:ℝ) 1 :=
+  salt_zero_pressure_viscosity_decreases_with_temperature 25 30 1 (by norm_num) (by norm_num) (by norm_num)
+    (by norm_num) (by norm_num)
+
+/-- `molality_to_molarity` increases strictly with the molality: the conversion is one-to-one on the model's range -/
+theorem molality_to_molarity_increases (t p m₁ m₂ : ℝ) (ht0 : 20 ≤ t) (ht1 : t ≤ 150) (hp0 : 0 ≤ p) (hp1 : p ≤ 35)
+    (h0 : 0 ≤ m₁) (h12 : m₁ < m₂) (h6 : m₂ ≤ 6) : molalityToMolarity t m₁ p < molalityToMolarity t m₂ p := by
+  rw [molalityToMolarity_real, molalityToMolarity_real]
+  obtain ⟨r1, hr12⟩ := salt_density_increases_with_concentration t p m₁ m₂ ht0 ht1 hp0 hp1 h0 h12 h6
+  generalize saltDensity t m₁ p = ρ₁ at *
+  generalize saltDensity t m₂ p = ρ₂ at *
+  have r2 : 0 < ρ₂ := by linarith
+  have e : ∀ (m ρ : ℝ), 0 ≤ m → 0 < ρ → m / (1000 * (1 + 58.4428 * m * 1e-3) / ρ) = (m / (1000 + 58.4428 * m)) * ρ := by
+    intro m ρ hm hρ
+    have : (0:ℝ) < 1000 + 58.4428 * m := by positivity
+    field_simp
+    ring
+  rw [e m₁ ρ₁ h0 r1, e m₂ ρ₂ (by linarith) r2]
+  have hfrac : m₁ / (1000 + 58.4428 * m₁) < m₂ / (1000 + 58.4428 * m₂) := by
+    rw [div_lt_div_iff₀ (by positivity) (by nlinarith)]
+    nlinarith
+  have hf0 : 0 ≤ m₁ / (1000 + 58.4428 * m₁) := by positivity
+  calc m₁ / (1000 + 58.4428 * m₁) * ρ₁ ≤ m₁ / (1000 + 58.4428 * m₁) * ρ₂ :=
+        mul_le_mul_of_nonneg_left hr12.le hf0
+    _ < m₂ / (1000 + 58.4428 * m₂) * ρ₂ := mul_lt_mul_of_pos_right hfrac r2
+
+
+example : molalityToMolarity (25:ℝ) 1 0.101325 < molalityToMolarity (25:ℝ) 2 0.101325 :=
+  molality_to_molarity_increases 25 0.101325 1 2 (by norm_num) (by norm_num) (by norm_num) (by norm_num) (by norm_num)
+    (by norm_num) (by norm_num)
+
+/-- The molarity → molality conversion of the public water functions is well posed: the molality a solution was made
+    with is a root of the residual handed to `brentq` (round trip), and on the model's range that root is the ONLY
+    one — two molalities in `[0, 6]` at which the residual of the same query vanishes are equal.  (With
+    `bisect_brackets_sign_change`: the bracketing iteration closes in on this root.) -/
+theorem molarity_to_molality_root_is_unique (t p : ℝ) (ht0 : 20 ≤ t) (ht1 : t ≤ 150) (hp0 : 0 ≤ p) (hp1 : p ≤ 35) :
+    (∀ m, 0 ≤ m → m ≤ 6 → molalityResidual t (molalityToMolarity t m p) p m = 0) ∧
+    (∀ c m m', 0 ≤ c → c ≤ 6 → 0 ≤ m → m ≤ 6 → 0 ≤ m' → m' ≤ 6 →
+      molalityResidual t c p m = 0 → molalityResidual t c p m' = 0 → m = m') := by
+  refine ⟨fun m h0 h6 => molalityResidual_round_trip t p m ht0 ht1 hp0 hp1 h0 h6, ?_⟩
+  intro c m m' hc0 hc6 h0 h6 h0' h6' hr hr'
+  have e := (molalityResidual_zero_iff t c p m ht0 ht1 hp0 hp1 hc0 hc6 h0 h6).mp hr
+  have e' := (molalityResidual_zero_iff t c p m' ht0 ht1 hp0 hp1 hc0 hc6 h0' h6').mp hr'
+  rcases lt_trichotomy m m' with h | h | h
+  · have := molality_to_molarity_increases t p m m' ht0 ht1 hp0 hp1 h0 h h6'
+    rw [e, e'] at this; exact absurd this (lt_irrefl _)
+  · exact h
+  · have := molality_to_molarity_increases t p m' m ht0 ht1 hp0 hp1 h0' h h6
+    rw [e, e'] at this; exact absurd this (lt_irrefl _)
+
+example : molalityResidual (25:ℝ) (molalityToMolarity 25 1 0.101325) 0.101325 1 = 0 :=
+  (molarity_to_molality_root_is_unique 25 0.101325 (by norm_num) (by norm_num) (by norm_num) (by norm_num)).1 1
+    (by norm_num) (by norm_num)
+
 end Verif.C20
